@@ -154,7 +154,9 @@ fn field_ref(rng: &mut Rng, refs: &[String], depth: usize) -> SRef {
         13 | 14 if depth > 0 => s_arr(field_ref(rng, refs, depth - 1)),
         15 => Schema { kind: Kind::Object { props: vec![], required: vec![], addl: None }, ..Default::default() },
         16 => Schema { kind: Kind::Any, ..Default::default() },
-        17 if !refs.is_empty() => Schema { kind: Kind::AllOf(vec![SRef::Ref(refs[rng.below(refs.len())].clone())]), ..Default::default() },
+        17 if !refs.is_empty() && rng.chance(2, 3) => Schema { kind: Kind::AllOf(vec![SRef::Ref(refs[rng.below(refs.len())].clone())]), ..Default::default() },
+        // a one-member allOf wrapping an inline primitive (a way to attach a description or nullable to a formatted string)
+        17 => Schema { kind: Kind::AllOf(vec![inl(prim(rng))]), ..Default::default() },
         18 => Schema { kind: Kind::OneOf(vec![inl(s_string()), inl(s_int())]), ..Default::default() },
         _ => prim(rng),
     };
@@ -183,7 +185,13 @@ fn object_schema(rng: &mut Rng, p: &Profile, refs: &[String]) -> Schema {
         }
         props.push((nm, r));
     }
-    Schema { kind: Kind::Object { props, required, addl: None }, descr: doc(rng, p), ..Default::default() }
+    // declared properties AND additionalProperties: still a struct of the declared members (the extra keys have no field)
+    let addl = if p.hard_names && rng.chance(1, 8) {
+        Some(if rng.chance(1, 3) { Addl::Any(rng.chance(1, 2)) } else { Addl::Schema(field_ref(rng, refs, 1)) })
+    } else {
+        None
+    };
+    Schema { kind: Kind::Object { props, required, addl }, descr: doc(rng, p), ..Default::default() }
 }
 
 pub fn gen_spec(rng: &mut Rng, p: &Profile) -> Spec {
@@ -243,13 +251,15 @@ pub fn gen_spec(rng: &mut Rng, p: &Profile) -> Spec {
                 obj_names.push(name.clone()); // may be referenced like a model (P5)
                 s_arr(inl(o))
             }
+            // a matrix: array component whose inline items are themselves an array of primitives (used inline wherever referenced)
+            12 if rng.chance(1, 3) => s_arr(inl(s_arr(inl(prim(rng))))),
             12 => s_arr(if !refs.is_empty() && rng.chance(1, 2) { SRef::Ref(refs[rng.below(refs.len())].clone()) } else { inl(prim(rng)) }),
             _ => object_schema(rng, p, &refs),
         };
         if matches!(sc.kind, Kind::Object { .. } | Kind::AllOf(_)) || matches!(&sc.kind, Kind::Str{enumeration, ..} if !enumeration.is_empty()) {
             obj_names.push(name.clone());
         }
-        if matches!(&sc.kind, Kind::Object { addl: None, .. }) || matches!(&sc.kind, Kind::AllOf(l) if l.len() > 1) {
+        if matches!(&sc.kind, Kind::Object { props, .. } if !props.is_empty()) || matches!(&sc.kind, Kind::AllOf(l) if l.len() > 1) {
             struct_names.push(name.clone());
         }
         spec.components.push((name.clone(), sc));
@@ -294,6 +304,8 @@ pub fn gen_spec(rng: &mut Rng, p: &Profile) -> Spec {
     let ids = [
         "listPets", "getPet", "createPet", "deletePet", "updateUser", "users.list", "get-order", "ListTeams", "type",
         "searchV2Things", "fetch_tag", "loop", "HTTPGet", "create2FA",
+        // ids that end in the suffixes the generator itself appends to operation names
+        "createPetRequest", "getPetRequired", "deletePetResponse", "listPetsRequest",
     ];
     for _ in 0..nops {
         let res = resources[rng.below(resources.len())];
@@ -499,6 +511,11 @@ pub fn gen_spec(rng: &mut Rng, p: &Profile) -> Spec {
             1 | 2 => {
                 let urls = ["https://api.example.com/v1", "https://api.example.com/", "https://api.example.com:8443/v1/", "https://{region}.example.com/v2", "http://localhost:3000"];
                 spec.servers.push(Server { url: urls[rng.below(urls.len())].into(), description: if rng.chance(1, 2) { Some("Production".into()) } else { None } })
+            }
+            _ if rng.chance(1, 4) => {
+                // two named environments behind one templated URL: still several servers
+                spec.servers.push(Server { url: "https://{region}.example.com/v1".into(), description: Some("Production".into()) });
+                spec.servers.push(Server { url: "https://{region}.example.com/v1".into(), description: Some("Sandbox".into()) });
             }
             _ => {
                 spec.servers.push(Server { url: "https://api.example.com".into(), description: Some("Production server".into()) });
